@@ -604,6 +604,130 @@ fn check_limit(case: &LimitCase, ctx: &mut CaseCtx) -> CaseResult {
     Ok(())
 }
 
+// ------------------------------------------------------------------------------------------------
+// long frames: the amount of OUTPUT must not show in the decoder's memory. Hundreds of blocks
+// (RLE, short raw, compressed blocks that are one long overlapping match) whose total is tens to
+// hundreds of windows, decoded incrementally: the peak heap stays within a small multiple of
+// window + request + one block however long the frame is.
+
+#[derive(Clone, Debug, Serialize, Deserialize)]
+pub struct LongCase {
+    pub exp: u8,
+    pub mant: u8,
+    pub nblocks: u16,
+    /// block kinds, cycled: 0 RLE, 1 short raw, 2 compressed (4 literals + one long match)
+    pub kinds: Vec<u8>,
+    pub seed: u32,
+    /// 0 StreamingDecoder reads, 1 UptoBytes(read) when empty + read, 2 UptoBlocks(1) + collect
+    pub drive: u8,
+    pub read: u32,
+}
+
+fn long_strategy() -> impl Strategy<Value = LongCase> {
+    (0u8..=8, 0u8..=7, prop_oneof![40u16..=120, 120u16..=400], prop::collection::vec(prop_oneof![3 => Just(0u8), 1 => Just(1u8), 2 => Just(2u8)], 1..=5), any::<u32>(), 0u8..=2, prop_oneof![1u32..=64, 1000u32..=70_000, Just(131_072u32)])
+        .prop_map(|(exp, mant, nblocks, kinds, seed, drive, read)| LongCase { exp, mant, nblocks, kinds, seed, drive, read })
+}
+
+fn check_long(case: &LongCase, ctx: &mut CaseCtx) -> CaseResult {
+    let window_desc = (case.exp.min(8) << 3) | (case.mant & 7);
+    let window = crate::model::frame::window_from_descriptor(window_desc) as usize;
+    let blk = window.min(BLOCK);
+    let mut r = crate::model::synth::Rng(case.seed as u64 | 1);
+    let mut blocks = vec![];
+    let mut rle_blocks = 0;
+    for i in 0..case.nblocks as usize {
+        match case.kinds[i % case.kinds.len()] % 3 {
+            0 => {
+                rle_blocks += 1;
+                blocks.push(BlockSpec::Rle { byte: 0x41 + (i % 23) as u8, len: (blk - r.below(3) as usize) as u32 });
+            }
+            1 => blocks.push(BlockSpec::Raw { data: (0..1 + r.below(300) as usize).map(|k| (k * 7 + i) as u8).collect() }),
+            _ => blocks.push(BlockSpec::Comp(CompSpec {
+                literals: vec![b'w', b'x', b'y', b'z'],
+                lit_mode: 0,
+                lit_fmt: 0,
+                huf_shape: 0,
+                huf_fse: false,
+                seqs: vec![SeqSpec { ll: 4, ml: (blk - 4 - r.below(5) as usize).max(3) as u32, off: OffSpec::Abs(1 + r.below(4) as u32) }],
+                count_fmt: 0,
+                modes: [0; 3],
+                tables: [(6, 1), (6, 2), (6, 3)],
+            })),
+        }
+    }
+    let spec = FrameSpec { single_segment: false, window_desc, fcs_bytes: 0, checksum: case.seed % 2 == 0, dict_id_bytes: 0, zero_dict_id: false, blocks };
+    let out = synth(&spec, None, false);
+    if out.invalid || out.window_size != window as u64 {
+        ctx.feat("skipped:frame_not_built");
+        return Ok(());
+    }
+    let read = case.read.max(1) as usize;
+    let mut sink = Sinker { expect: &out.content, pos: 0, ok: true };
+    let mut dec = FrameDecoder::new();
+    let meter = Meter::start();
+    let outcome: Result<(), String> = (|| match case.drive % 3 {
+        0 => {
+            let mut sd = StreamingDecoder::new_with_decoder(&out.bytes[..], &mut dec).map_err(|e| format!("init: {e}"))?;
+            let mut buf = vec![0u8; read];
+            loop {
+                let n = sd.read(&mut buf).map_err(|e| format!("read: {e}"))?;
+                if n == 0 {
+                    break;
+                }
+                sink.take(&buf[..n]);
+            }
+            Ok(())
+        }
+        1 => {
+            let mut src = &out.bytes[..];
+            dec.reset(&mut src).map_err(|e| format!("init: {e}"))?;
+            let mut buf = vec![0u8; read];
+            loop {
+                if !dec.is_finished() && dec.can_collect() == 0 {
+                    dec.decode_blocks(&mut src, BlockDecodingStrategy::UptoBytes(read)).map_err(|e| format!("decode_blocks: {e}"))?;
+                }
+                let n = dec.read(&mut buf).map_err(|e| format!("read: {e}"))?;
+                sink.take(&buf[..n]);
+                if n == 0 && dec.is_finished() {
+                    break;
+                }
+            }
+            Ok(())
+        }
+        _ => {
+            let mut src = &out.bytes[..];
+            dec.reset(&mut src).map_err(|e| format!("init: {e}"))?;
+            while !dec.is_finished() {
+                dec.decode_blocks(&mut src, BlockDecodingStrategy::UptoBlocks(1)).map_err(|e| format!("decode_blocks: {e}"))?;
+                if let Some(v) = dec.collect() {
+                    sink.take(&v);
+                }
+            }
+            if let Some(v) = dec.collect() {
+                sink.take(&v);
+            }
+            Ok(())
+        }
+    })();
+    let peak = meter.peak();
+    if let Err(e) = &outcome {
+        return Err(Failure::new("valid_frame_rejected", format!("{e}; long frame of {} blocks, window {window}", case.nblocks)));
+    }
+    ensure!(sink.ok && sink.pos == out.content.len(), "wrong_content", "delivered {} of {} bytes, ok={}", sink.pos, out.content.len(), sink.ok);
+    // (the ring allocates the next power of two above window + what one call adds; collect() hands
+    // out a vector of its own: 4 x covers both, 1 MiB for everything small)
+    let budget = 4 * (window + read.max(BLOCK) + BLOCK) + (1 << 20);
+    ensure!(peak <= budget, "memory_grows_with_output", "peak live heap {peak} > {budget} while decoding {} bytes of output from {} bytes of input ({} blocks, window {window}, read size {read}, drive {})",
+        out.content.len(), out.bytes.len(), case.nblocks, case.drive % 3);
+    ctx.feat(["drive:streaming", "drive:upto_bytes+read", "drive:upto_blocks+collect"][(case.drive % 3) as usize]);
+    ctx.feat_if(rle_blocks > 30, "blocks:30+_rle");
+    ctx.feat_if(out.content.len() > 64 * window, "output:more_than_64_windows");
+    ctx.feat_if(out.content.len() > (16 << 20), "output:more_than_16MiB");
+    ctx.nontrivial = out.content.len() > 16 * window;
+    ctx.set_hash_bytes(&[&out.bytes, &[case.drive % 3], &case.read.to_le_bytes()]);
+    Ok(())
+}
+
 pub fn run(eng: &Engine) {
     eng.set_rule("valid frames (three sources) and synthesized frames with one over-long compressed block (regenerated size around and far above 128 KiB, built from a few literals plus max-length matches, or from 20-bit RLE/raw literals), each driven by decode_blocks (All/UptoBlocks/UptoBytes, with or without draining), StreamingDecoder reads, decode_all (also with an undersized target), decode_from_to, on a new decoder or on one that has decoded a tiny frame declaring a 1..16 MiB window before; non-trivial = a block regenerating > 64 KiB, or valid content exceeding window + 128 KiB; distinct by (frame, drive) hash");
     eng.assume("held data observed through the hook FrameDecoder::verif_buffer_len and the per-thread counting allocator");
@@ -613,12 +737,15 @@ pub fn run(eng: &Engine) {
     eng.run_stage("frames", n, || case_strategy(tier), check);
     let nl = eng.tier.pick(30_000, 400_000);
     eng.run_stage("configured_limits", nl, limit_strategy, check_limit);
+    let ng = eng.tier.pick(1_500, 30_000);
+    eng.run_stage("long_frames", ng, long_strategy, check_long);
 }
 
 pub fn replay(eng: &Engine, stage: &str, case: &Value) -> CaseResult {
     match stage {
         "frames" => eng.replay_value(stage, case, check),
         "configured_limits" => eng.replay_value(stage, case, check_limit),
+        "long_frames" => eng.replay_value(stage, case, check_long),
         _ => Err(Failure::new("machinery", format!("unknown stage {stage}"))),
     }
 }
